@@ -10,6 +10,7 @@
 -/
 import YashModel.Generated.ExecutorTables
 import YashModel.Executor.Model
+import YashModel.Executor.RcModel
 namespace YashModel.Executor
 open YashModel.Generated.ExecutorTables
 
@@ -76,5 +77,40 @@ def popAt (e : End) (q : List Nat) : Option (Nat × List Nat) :=
 /-- `Task::wake` on the queue with the extracted parameters -/
 def enqBy (dedup : Bool) (e : End) (q : List Nat) (t : Nat) : List Nat :=
   if dedup && q.contains t then q else pushAt e q t
+
+/-! ### wave 3: the raw waker vtable of waker.rs, `Task::poll`, `run_until_stalled` -/
+
+/-- one reference-count operation of a vtable function, on the counted state of `RcModel.lean` -/
+def vtStep (r : Rc.RState) (t : Nat) : VtOp → Rc.RState
+  | .inc => Rc.incStrong r t
+  | .dec => Rc.decStrong r t
+  | .fromRawWake => Rc.taskWake (Rc.locUp r t) t
+  | .newRaw => Rc.wkUp r t
+
+/-- a vtable function read off its extracted operations; `consumes` is the contract of the SLOT it sits in
+    (`wake` and `drop` take the waker over, `clone` and `wake_by_ref` only borrow it) -/
+def vtBy (consumes : Bool) (ops : List VtOp) (r : Rc.RState) (t : Nat) : Rc.RState :=
+  ops.foldl (fun r o => vtStep r t o) (if consumes then Rc.wkDown r t else r)
+
+/-- `Task::poll` with the extracted facts as parameters: what an emptied slot returns, and whether the slot
+    is emptied when the future returned `Ready` -/
+def pollWith (emptyReturns emptiesOnReady : Bool) (s : State) (t : Nat) : State × Bool :=
+  match s.fut t with
+  | none => (logEv s (.noop t), emptyReturns)
+  | some acts =>
+    let r := runActs t acts (logEv s (.poll t))
+    match r.2 with
+    | some rest => (logEv { r.1 with fut := upd r.1.fut t (some rest) } (.ret t false), false)
+    | none =>
+      let c := complete r.1 t
+      (logEv (if emptiesOnReady then c else { c with fut := upd c.fut t (some []) }) (.ret t true), true)
+
+/-- `Executor::run_until_stalled` with the extracted fact as parameter: does a `Some(true)` step count? -/
+def rusWith (countsTrue : Bool) : Nat → State → Nat → State × Nat × Bool
+  | 0, s, c => (s, c, s.queue.isEmpty)
+  | n + 1, s, c =>
+    match step s with
+    | none => (s, c, true)
+    | some r => rusWith countsTrue n r.1 (if r.2 && countsTrue then c + 1 else c)
 
 end YashModel.Executor
